@@ -883,7 +883,12 @@ func (c1 floatConst) representedBy(typ reflect.Type) (constant, error) {
 		}
 		return nil, fmt.Errorf("constant %s truncated to integer", c1)
 	}
-	if f, _ := c1.f.Float64(); !math.IsInf(f, 0) {
+	if kind == reflect.Float32 || kind == reflect.Complex64 {
+		// Round once: going through float64 would round twice.
+		if f, _ := c1.f.Float32(); !math.IsInf(float64(f), 0) {
+			return float64Const(f), nil
+		}
+	} else if f, _ := c1.f.Float64(); !math.IsInf(f, 0) {
 		return float64Const(f).representedBy(typ)
 	}
 	if reflect.Float32 <= kind && kind <= reflect.Complex128 {
